@@ -382,9 +382,12 @@ P_C04(ck, pt, cb, sok, t, o, ret) ==
   /\ (ret = 0 /\ pt.status = "ok") => ClaimsOK(ck, pt.clm, t)
   /\ (pt.status = "ok" /\ ClaimsOK(ck, pt.clm, t) /\ VerifyAfterParse(ck, pt, cb, sok, t, o) = "accept") => ret = 0
 \* C09: floor, both directions
+\* (a key whose import failed has no strength at all: nothing verifies under it, nothing is signed with it; the
+\* "works" direction speaks about keys that were imported)
+ItemBad(it) == it.id # -1 /\ "err" \in DOMAIN it /\ it.err = 1
 P_C09(ck, pt, cb, sok, t, o, ret) ==
-  /\ (ret = 0 /\ pt.status = "ok" /\ Keyed(cb.cfg)) => FloorOK(pt.alg, cb.cfg.key.kd)
-  /\ (pt.status = "ok" /\ VerifyAfterParse(ck, pt, cb, sok, t, o) = "accept") => ret = 0
+  /\ (ret = 0 /\ pt.status = "ok" /\ Keyed(cb.cfg)) => (FloorOK(pt.alg, cb.cfg.key.kd) /\ ~ItemBad(cb.cfg.key))
+  /\ (pt.status = "ok" /\ ~ItemBad(cb.cfg.key) /\ VerifyAfterParse(ck, pt, cb, sok, t, o) = "accept") => ret = 0
 \* C14: flag and message follow the return value
 P_C14v(ret, err, msg) == ((ret # 0) <=> (err = 1)) /\ (err = 1 => msg = 1) /\ (ret = 0 => msg = 0)
 \* C19: callback return and untouched config
@@ -467,8 +470,8 @@ P_C02g(b, t, rs, g) ==
 \* C09, builder side
 P_C09g(b, t, rs, o, g) ==
   LET cb == GenCb(b, t, rs) ref == GenRef(b, t, rs, o) IN
-  /\ (g.ret = "tok" /\ Keyed(cb.cfg) /\ g.talg \in RealAlgs) => FloorOK(g.talg, cb.cfg.key.kd)
-  /\ (ref.ret = "tok" => g.ret = "tok")
+  /\ (g.ret = "tok" /\ Keyed(cb.cfg) /\ g.talg \in RealAlgs) => (FloorOK(g.talg, cb.cfg.key.kd) /\ ~ItemBad(cb.cfg.key))
+  /\ ((ref.ret = "tok" /\ ~ItemBad(cb.cfg.key)) => g.ret = "tok")
 \* C14: NULL <=> flag set with message
 P_C14g(ret, err, msg) == ((ret = "null") <=> (err = 1)) /\ (err = 1 => msg = 1) /\ (ret = "tok" => msg = 0)
 \* signature of a produced token is valid for the key used (C05 / C10)
